@@ -20,6 +20,8 @@ def canon(df, st, cols=None):  # noqa: ANN001
     if isinstance(df, pd.Series):
         df = df.reset_index()
     d = df.copy()
+    if "s_user_annotation" in d.columns and "user_annotation" in d.columns:
+        d = d.drop(columns=["user_annotation"])          # raw symbol id; its decoded form stays
     for c in ("name", "cat"):
         if c in d.columns and d[c].dtype.kind in "iu":
             d[c] = d[c].apply(lambda i: st[i] if 0 <= i < len(st) else f"<bad id {i}>")
@@ -64,6 +66,8 @@ def main() -> None:
     run("launch_stats", lambda: ta.get_cuda_kernel_launch_stats(ranks=ranks, visualize=False))
     run("queue_length", lambda: ta.get_queue_length_time_series(ranks))
     run("memory_bw", lambda: ta.get_memory_bw_time_series(ranks))
+    for r in ranks:
+        run(f"gpu_kernels_with_user_annotations[{r}]", lambda r=r: ta.get_gpu_kernels_with_user_annotations(r))
     run("profiler_steps", lambda: __import__("pandas").DataFrame({"s": ta.get_profiler_steps()}))
 
     def cp():  # noqa: ANN001
